@@ -58,8 +58,8 @@ def cli_exec(root, target_rel, settings, cwd_rel="cwd", order_key=None, faults=(
     os.chdir(cwd)
     seams.set_terminal_env(root, no_color=no_color)
 
-    if target_rel is None:
-        target = None
+    if target_rel is None or (argform == "noarg" and os.path.normpath(os.path.join(root, target_rel)) == os.path.normpath(cwd)):
+        target = None  # no argument: the command's default path "." (= the working directory)
     else:
         tabs = os.path.normpath(os.path.join(root, target_rel))
         target = os.path.relpath(tabs, cwd) if argform == "rel" else tabs
